@@ -32,7 +32,16 @@ fn run_case(w: &mut Worker, i: u64) -> CaseOut {
         max_depth: r.usize(4),
         big_delegated: r.chance(1, 5),
     };
-    let spec = gen_spec(&mut r, &opts);
+    let mut spec = gen_spec(&mut r, &opts);
+    // one repository in three with delegations lists a key in targets.json's delegations.keys that no
+    // delegated role names (what remove_role()/remove_key() leave behind): an update must keep it
+    if !spec.delegations.is_empty() && r.chance(1, 3) {
+        let named: Vec<usize> = spec.delegations.iter().flat_map(|d| d.keys.clone()).collect();
+        if let Some(k) = (4..crate::keys::N_ED).find(|k| !named.contains(k)) {
+            spec.spare_deleg_keys = vec![k];
+            out.h("orphan-delegation-key");
+        }
+    }
     let mut built = build(&spec);
     rekey_targets_for_url(&mut built, &spec);
     let t = MemTransport::new(built.files.clone());
@@ -290,6 +299,7 @@ pub fn run(cfg: &Cfg) -> i32 {
         "consistent=false".into(),
         "delegation-depth=3".into(),
         "via=library".into(),
+        "orphan-delegation-key".into(),
         "via=tuftool-update".into(),
     ];
     finish(
